@@ -21,7 +21,7 @@ META = {
     "assumptions": ["field-wise equality: numbers as floats (nan/inf by class), sequences modulo tuple/list; non-numeric distribution descriptors compared as strings"],
     "deciding": ["roundtrip:result-json", "roundtrip:region-dict"],
 }
-META["added"] = 'Added: finalize() makes the run inconclusive when a result class is never produced, quantile pairs with nan / inf, second rebuild from the same dictionary object and from its JSON text. lowest magnitude edge 0.0, lattices at longitudes >= 180. second serialization of the same result object. single-catalog forecasts (one-element distributions), numeric-looking names.'
+META["added"] = 'Added: finalize() makes the run inconclusive when a result class is never produced, quantile pairs with nan / inf, second rebuild from the same dictionary object and from its JSON text. lowest magnitude edge 0.0, lattices at longitudes >= 180. second serialization of the same result object. single-catalog forecasts (one-element distributions), numeric-looking names. integer-typed and single-precision magnitude bins (min_mw is then a numpy scalar), forecast names with runs of blanks.'
 MANIFEST = {
     "technique": "boundary recorder on EvaluationResult.to_dict/from_dict, csep.write_json, csep.load_evaluation_result and CartesianGrid2D.to_dict/from_dict; results are produced by the library's own 19 evaluation functions on generated inputs; field-wise equality oracle; class-coverage ledger",
     "level_text": "Every result class the library can produce is obtained by actually running each of the 19 evaluation functions on generated inputs (including -inf, NaN, None and empty-distribution outcomes) and round-tripped through JSON; all documented fields must be equal and the class preserved; the ledger lists which function produced which class and a class never produced makes the run inconclusive. Unmasked Cartesian regions rebuilt from their dict must give the same cell for every probe.",
@@ -143,9 +143,9 @@ def ex_gridded(ctx, case, ratesB, seed=0):
     try:
         def fresh():
             # names that read like numbers are still names
-            fa, cat, reg, w = gridcases.build(case, name=["fore A", "2010", "1.5", "nan"][seed % 4])
+            fa, cat, reg, w = gridcases.build(case, name=["fore  A   v2", "2010", "1.5", "nan"][seed % 4])
             cat.name = ["obs", "2011", "7", "catalog 7"][seed % 4]
-            fb = fixtures.gridded_forecast(numpy.array(ratesB, dtype=float), reg, fa.magnitudes, name=["fore,B", "2012", "-3e5", "inf"][seed % 4])
+            fb = fixtures.gridded_forecast(numpy.array(ratesB, dtype=float), reg, fa.magnitudes, name=["fore,B  (x)", "2012", "-3e5", "inf"][seed % 4])
             return fa, fb, cat, w
         fa, fb, cat, w = fresh()
         rates = numpy.array(case["rates"])
@@ -290,6 +290,10 @@ def run(ctx):
         B = (numpy.array(case["rates"]) * 10 ** r.normal(0, 0.3, numpy.array(case["rates"]).shape)).tolist()
         if j % 3 == 2:
             case["mag0"] = "0.0"          # lowest magnitude edge exactly 0: min_mw = 0.0 is a value, not "missing"
+        elif j % 12 == 1:
+            case["mag0"], case["dmag"], case["mag_dtype"] = "4", "1", "int"     # integer-typed magnitude bins (numpy.arange(4, 9)): min_mw is a numpy integer
+        elif j % 12 == 7:
+            case["mag0"], case["dmag"], case["mag_dtype"] = "4.5", "0.5", "f4"  # single-precision bins whose edges are exact in float32
         ex_gridded(ctx, case, B, seed=int(r.integers(0, 1000)))
         fc = c13.gen_forecast(r, {"source": "memory", "filters": False, "spatial": False})
         if j % 4 == 1:
